@@ -43,7 +43,7 @@ class Script:
         return conv
 
 
-def build(initial_level=2, maximum_level=4, initial_mc_paths=6, plans=(([8], False), ([8], True)), seed=None, h=0.25, fixed=False):
+def build(initial_level=2, maximum_level=4, initial_mc_paths=6, plans=(([8], False), ([8], True)), seed=None, h=0.25, fixed=False, spot_payoff=False):
     from rpylib.model.levymodel.mixed.hem import HEMParameters, ExponentialOfHEMModel
     from rpylib.grid.spatial import CTMCUniformGrid
     from rpylib.process.coupling.couplingmarkovchain import CouplingMarkovChain
@@ -58,7 +58,8 @@ def build(initial_level=2, maximum_level=4, initial_mc_paths=6, plans=(([8], Fal
     grid = CTMCUniformGrid(h=h, model=model)
     process = CouplingMarkovChain(model=model, method=SamplingMethod.INVERSION, grid=grid)
     counter = Counter()
-    product = Product(payoff_underlying=Spot(), payoff=PayoffOnTheFly(counter), maturity=0.5)
+    # spot_payoff: the payoff is the terminal spot itself (continuous in the variates: equal rows <=> shared variates)
+    product = Product(payoff_underlying=Spot(), payoff=PayoffOnTheFly((lambda u: float(np.ravel(u)[0])) if spot_payoff else counter), maturity=0.5)
     script = Script(plans)
     crit = ConvergenceCriteria(criteria=script.criteria, compute_mc_paths=script.compute_mc_paths)
     cfg = ConfigurationMultiLevel(convergence_rates=ConvergenceRates(alpha=1.0, beta=1.5, gamma=1.0), convergence_criteria=crit, initial_level=initial_level,
